@@ -4,6 +4,7 @@ package cl
 
 import (
 	"strconv"
+	"unicode"
 
 	"github.com/ohler55/ojg/sen"
 	"github.com/ohler55/slip"
@@ -63,6 +64,10 @@ func appendHashBytes(b []byte, obj slip.Object) []byte {
 			f = 0.0 // -0.0 is equal to 0 and 0.0
 		}
 		return strconv.AppendFloat(b, f, 'g', -1, 64)
+	case slip.String:
+		// equal compares strings with strings.EqualFold() so the hash must
+		// not depend on the case of any letter, not only the ASCII letters.
+		return append(b, sen.Bytes(foldString(string(to)))...)
 	case slip.List:
 		b = append(b, '[')
 		for _, e := range to {
@@ -77,4 +82,20 @@ func appendHashBytes(b []byte, obj slip.Object) []byte {
 		return append(b, ']')
 	}
 	return append(b, sen.Bytes(slip.SimpleObject(obj))...)
+}
+
+// foldString replaces each rune with the smallest rune of its simple case
+// folding orbit, strings that are strings.EqualFold() map to the same string.
+func foldString(s string) string {
+	folded := make([]rune, 0, len(s))
+	for _, r := range s {
+		low := r
+		for f := unicode.SimpleFold(r); f != r; f = unicode.SimpleFold(f) {
+			if f < low {
+				low = f
+			}
+		}
+		folded = append(folded, low)
+	}
+	return string(folded)
 }
